@@ -24,17 +24,25 @@ impl StructType {
     }
 }
 
+/// Hashes the field names independently of the order the map yields them in
+/// (equal struct types must hash equally; map order differs per instance).
+fn hash_keys<'a, H: std::hash::Hasher>(keys: impl Iterator<Item = &'a Arc<str>>, state: &mut H) {
+    let mut keys: Box<[&Arc<str>]> = keys.collect();
+    keys.sort_unstable();
+    keys.hash(state)
+}
+
 #[cfg(feature = "verif")]
 impl Hash for StructType {
     fn hash<H: std::hash::Hasher>(&self, state: &mut H) {
-        crate::verif::ordered_keys(&self.0).hash(state)
+        hash_keys(crate::verif::ordered_keys(&self.0).into_iter(), state)
     }
 }
 
 #[cfg(not(feature = "verif"))]
 impl Hash for StructType {
     fn hash<H: std::hash::Hasher>(&self, state: &mut H) {
-        self.0.keys().collect::<Box<[&Arc<str>]>>().hash(state)
+        hash_keys(self.0.keys(), state)
     }
 }
 
